@@ -268,6 +268,13 @@ fn sub_negative(input: &[u8], st: &mut Stats) -> R {
 /// references, ids declared twice with different widths, consumers before their types
 fn sub_type_chaos(input: &[u8], st: &mut Stats) -> R {
     let mut cs = Cs::new(input);
+    let (w, desc) = type_chaos_words(&mut cs);
+    let bytes = words_to_bytes(&w);
+    exercise(&bytes, st, &|| desc.join("\n"))
+}
+
+/// the words of a type-chaos module and a description of its instructions
+pub fn type_chaos_words(cs: &mut Cs) -> (Vec<u32>, Vec<String>) {
     let mut w = header_words((1, 4), 16);
     let n = 2 + cs.below(10);
     let mut desc = vec![];
@@ -325,8 +332,7 @@ fn sub_type_chaos(input: &[u8], st: &mut Stats) -> R {
             }
         }
     }
-    let bytes = words_to_bytes(&w);
-    exercise(&bytes, st, &|| desc.join("\n"))
+    (w, desc)
 }
 
 pub const SUBS: &[Sub] = &[
